@@ -22,6 +22,56 @@ pub proof fn lemma_tok_pos_mono(ts: Seq<crate::tokenizer::Token>, b: Seq<u8>, i:
         assert(ts[i].byte_end <= b.len());
     }
 }
+/// sequence part of lemma_parts_from_flatten: where the last part's tokens (and its children's) sit in ts
+pub proof fn lemma_flatten_split(parts: Seq<crate::parser::ContentPart>, ts: Seq<crate::tokenizer::Token>, i: int, j: int)
+    requires 0 <= i <= j <= ts.len(), crate::flatten(parts) == ts.subrange(i, j), parts.len() > 0,
+    ensures ({
+        let g = parts.drop_last();
+        let m = i + crate::flatten(g).len();
+        &&& i <= m < j
+        &&& crate::flatten(g) == ts.subrange(i, m)
+        &&& match parts.last() {
+            crate::parser::ContentPart::Text(t) => j == m + 1 && *t.token == ts[m],
+            crate::parser::ContentPart::Element(el) => j >= m + 2 && *el.start_token == ts[m] && *el.end_token == ts[j - 1]
+                && crate::flatten(el.children@) == ts.subrange(m + 1, j - 1),
+        }
+    }),
+{
+    let g = parts.drop_last();
+    let c = parts.last();
+    let fg = crate::flatten(g);
+    let m = i + fg.len();
+    let x = match c {
+        crate::parser::ContentPart::Text(t) => seq![*t.token],
+        crate::parser::ContentPart::Element(el) => seq![*el.start_token] + crate::flatten(el.children@) + seq![*el.end_token],
+    };
+    assert(crate::flatten(parts) == fg + x);
+    assert((fg + x).len() == j - i);
+    assert(fg =~= ts.subrange(i, m)) by {
+        assert(fg =~= (fg + x).subrange(0, fg.len() as int));
+        assert(ts.subrange(i, j).subrange(0, fg.len() as int) =~= ts.subrange(i, m));
+    }
+    assert(x =~= ts.subrange(m, j)) by {
+        assert(x =~= (fg + x).subrange(fg.len() as int, (fg + x).len() as int));
+        assert(ts.subrange(i, j).subrange(fg.len() as int, j - i) =~= ts.subrange(m, j));
+    }
+    match c {
+        crate::parser::ContentPart::Text(t) => {
+            assert(x.len() == 1 && j == m + 1);
+            assert(*t.token == ts.subrange(m, j)[0]);
+        },
+        crate::parser::ContentPart::Element(el) => {
+            let fc = crate::flatten(el.children@);
+            assert(x.len() == fc.len() + 2);
+            assert(*el.start_token == ts.subrange(m, j)[0]) by { assert(x[0] == *el.start_token); }
+            assert(*el.end_token == ts.subrange(m, j)[j - m - 1]) by { assert(x[x.len() - 1] == *el.end_token); }
+            assert(fc =~= ts.subrange(m + 1, j - 1)) by {
+                assert(fc =~= x.subrange(1, x.len() - 1));
+                assert(ts.subrange(m, j).subrange(1, j - m - 1) =~= ts.subrange(m + 1, j - 1));
+            }
+        },
+    }
+}
 pub proof fn lemma_parts_from_flatten(parts: Seq<crate::parser::ContentPart>, ts: Seq<crate::tokenizer::Token>, b: Seq<u8>, i: int, j: int)
     requires toks_seq_ok(ts, b), 0 <= i <= j <= ts.len(), crate::flatten(parts) == ts.subrange(i, j),
     ensures parts_wf(parts, tok_pos(ts, b, i), tok_pos(ts, b, j)), parts_on_b(parts, b), all_el_wf(parts),
@@ -33,42 +83,17 @@ pub proof fn lemma_parts_from_flatten(parts: Seq<crate::parser::ContentPart>, ts
         let c = parts.last();
         let n = parts.len() as int;
         assert(c == parts[n - 1]);
-        let fg = crate::flatten(g);
-        let m = i + fg.len();
-        let x = match c {
-            crate::parser::ContentPart::Text(t) => seq![*t.token],
-            crate::parser::ContentPart::Element(el) => seq![*el.start_token] + crate::flatten(el.children@) + seq![*el.end_token],
-        };
-        assert(crate::flatten(parts) == fg + x);
-        assert(m <= j);
-        assert(fg =~= ts.subrange(i, m)) by {
-            assert(fg =~= (fg + x).subrange(0, fg.len() as int));
-            assert(ts.subrange(i, j).subrange(0, fg.len() as int) =~= ts.subrange(i, m));
-        }
-        assert(x =~= ts.subrange(m, j)) by {
-            assert(x =~= (fg + x).subrange(fg.len() as int, (fg + x).len() as int));
-            assert(ts.subrange(i, j).subrange(fg.len() as int, j - i) =~= ts.subrange(m, j));
-        }
+        let m = i + crate::flatten(g).len();
+        lemma_flatten_split(parts, ts, i, j);
         lemma_parts_from_flatten(g, ts, b, i, m);
         lemma_tok_pos_mono(ts, b, i, m);
         lemma_tok_pos_mono(ts, b, m, j);
         match c {
             crate::parser::ContentPart::Text(t) => {
-                assert(x.len() == 1 && j == m + 1);
-                assert(*t.token == ts.subrange(m, j)[0]);
-                assert(*t.token == ts[m]);
+                assert(j == m + 1 && *t.token == ts[m]);
             },
             crate::parser::ContentPart::Element(el) => {
-                let fc = crate::flatten(el.children@);
-                assert(x.len() == fc.len() + 2);
-                assert(j - m == fc.len() + 2);
-                assert(*el.start_token == ts.subrange(m, j)[0]);
-                assert(*el.end_token == ts.subrange(m, j)[j - m - 1]) by { assert(x[x.len() - 1] == *el.end_token); }
                 assert(*el.start_token == ts[m] && *el.end_token == ts[j - 1]);
-                assert(fc =~= ts.subrange(m + 1, j - 1)) by {
-                    assert(fc =~= x.subrange(1, x.len() - 1));
-                    assert(ts.subrange(m, j).subrange(1, j - m - 1) =~= ts.subrange(m + 1, j - 1));
-                }
                 lemma_parts_from_flatten(el.children@, ts, b, m + 1, j - 1);
                 lemma_tok_pos_mono(ts, b, m + 1, j - 1);
                 assert(ts[m].byte_end == tok_pos(ts, b, m + 1));
